@@ -1154,6 +1154,8 @@ class Point(AbstractPoint):
         return not self == other
 
     def __neg__(self):
+        if self == INFINITY:
+            return INFINITY
         return Point(self.__curve, self.__x, self.__curve.p() - self.__y)
 
     def __add__(self, other):
